@@ -184,14 +184,42 @@ func evalLine(c *runlib.Ctx, fam, line string) (nontrivial bool) {
 
 	want := reference(line)
 
-	// A fresh record every time: UnmarshalText does not promise anything about
-	// a receiver that already holds names; Source is not touched by it.
+	evalLineOn(c, fam, line, want, bad, false)
+	// The same line into a Record that already holds the result of an earlier,
+	// longer line: "yields exactly that address and those names" holds for a
+	// reused receiver too (nothing is asserted where the statement is silent:
+	// the names left behind by an empty / one-field / bad-address line).
+	evalLineOn(c, fam, line, want, bad, true)
+
+	return want.cl >= clBadAddr
+}
+
+func evalLineOn(c *runlib.Ctx, fam, line string, want expectation, bad func(what string), reused bool) {
+	hx := enum.Hex
 	rec := &hostsfile.Record{}
+	if reused {
+		rec = &hostsfile.Record{
+			Addr:  netip.MustParseAddr("9.9.9.9"),
+			Names: append(make([]string, 0, 8), "old1", "old2", "old3", "old4", "old5"),
+		}
+
+		inner := bad
+		bad = func(what string) { inner("into a reused Record: " + what) }
+	}
+
+	// The text is handed over as a byte slice that the caller overwrites
+	// afterwards, as a line scanner does: encoding.TextUnmarshaler requires
+	// UnmarshalText to copy what it retains.
+	data := []byte(line)
 	var err error
-	if pv, _ := runlib.Try(func() { err = rec.UnmarshalText([]byte(line)) }); pv != nil {
+	if pv, _ := runlib.Try(func() { err = rec.UnmarshalText(data) }); pv != nil {
 		bad("panicked: " + hx(show(pv)))
 
-		return want.cl >= clBadAddr
+		return
+	}
+
+	for i := range data {
+		data[i] = 0xAA
 	}
 
 	if rec.Source != "" {
@@ -240,11 +268,11 @@ func evalLine(c *runlib.Ctx, fam, line string) (nontrivial bool) {
 		case !slices.Equal(rec.Names, want.names):
 			bad("names = " + hexNames(rec.Names) + ", want " + hexNames(want.names))
 		default:
-			roundTrip(c, fam, line, rec)
+			if !reused {
+				roundTrip(c, fam, line, rec)
+			}
 		}
 	}
-
-	return want.cl >= clBadAddr
 }
 
 // roundTrip checks that MarshalText of an accepted record re-parses to an
